@@ -25,7 +25,9 @@ Record FieldLaws {F} (O : Ops F) : Prop := {
   FL_conj_mul : forall x y, fconj O (fmul O x y) = fmul O (fconj O x) (fconj O y);
   FL_conj_invol : forall x, fconj O (fconj O x) = x;
   FL_conj_0 : fconj O (f0 O) = f0 O;
-  FL_conj_1 : fconj O (f1 O) = f1 O }.
+  FL_conj_1 : fconj O (f1 O) = f1 O;
+  FL_ofZ_1 : fofZ O 1%Z = f1 O;
+  FL_ofZ_m1 : fofZ O (-1)%Z = fopp O (f1 O) }.
 
 (* Order on the self-conjugate ("real") elements; x * conj x is real and >= 0. *)
 Record OrdLaws {F} (O : Ops F) : Prop := {
